@@ -1,9 +1,152 @@
-//! C20 sessions (seeded driver). Fill in.
+//! C20 sessions. One session = one fresh process in which N = 2..16 real threads hammer the
+//! convenience ("compiled") API - the process-wide TZ_PROVIDER - over mixed zones, cold at first,
+//! warm later, with unknown-zone and out-of-range calls interleaved; fault sessions add a phase in
+//! which one thread panics while holding the provider lock (injected hook, or a natural input that
+//! makes the provider panic), followed by calls from all threads.
+//! `tvh record c20 <seed> <n_sessions> <out>` writes one NDJSON line per session (see sp_c20::run_session).
 use super::Tracer;
 use crate::gen::*;
+use crate::js::big;
 use crate::rng::Rng;
-use serde_json::json;
+use serde_json::{json, Value};
+use std::io::Write;
+
+const ZONES: [&str; 14] = ["America/New_York", "Europe/Berlin", "Asia/Tokyo", "Australia/Sydney", "America/Sao_Paulo", "Africa/Cairo",
+    "Asia/Kolkata", "Europe/London", "Pacific/Auckland", "America/Los_Angeles", "UTC", "Europe/Paris", "US/Eastern", "Pacific/Apia"];
+const FIXED: [&str; 3] = ["+05:30", "-08:00", "+00:00"];
+const BAD: [&str; 3] = ["Nowhere/Land", "Mars/Olympus_Mons", "Europe/Atlantis"];
+const FIELDS: [&str; 13] = ["year", "month", "day", "hour", "minute", "second", "millisecond", "dayOfWeek", "dayOfYear", "daysInMonth", "inLeapYear", "hoursInDay", "offsetSeconds"];
+
+/// an instant between 1972 and 2036 that is not on a whole second (so never exactly on a transition).
+/// Earlier wall-clock times and later instants make the provider itself panic in the unchanged tree
+/// (tzdb.rs:314 / :382, see natural_panic); they are kept for the fault histories.
+fn instant(r: &mut Rng) -> Value {
+    let s = r.range(63_072_000, 2_100_000_000) as i128;
+    big(s * 1_000_000_000 + r.range(1, 999_999_999) as i128)
+}
+fn wall(r: &mut Rng) -> (i64, i64, i64, i64, i64) {
+    let (y, m, d) = civil(r.range(731, 24_000));
+    (y, m, d, r.range(0, 23), r.range(0, 59))
+}
+
+/// zone of a call: `fault` = "unknown" picks an identifier without a TZif file
+fn zone(r: &mut Rng, pool: &[&'static str], fault: &str) -> &'static str {
+    if fault == "unknown" { *r.pick(&BAD) } else if r.chance(1, 9) { *r.pick(&FIXED) } else { *r.pick(pool) }
+}
+
+/// one convenience-API call. fault: "" | "unknown" (zone without data) | "range" (out-of-range value)
+pub fn call(r: &mut Rng, pool: &[&'static str], fault: &str) -> Value {
+    let tz = zone(r, pool, fault);
+    let ns = instant(r);
+    let huge = fault == "range";
+    match r.range(0, 13) {
+        0..=3 => {
+            if huge { return json!({"op": "CZ.add", "args": {"ns": ns, "tz": tz, "dur": {"y": 300000}}}); }
+            json!({"op": "CZ.get", "args": {"ns": ns, "tz": tz, "f": *r.pick(&FIELDS)}})
+        }
+        4 | 5 => {
+            let (y, m, d, h, mi) = wall(r);
+            let s = if huge { format!("+275760-09-14T{:02}:{:02}[{}]", h, mi, tz) } else { format!("{:04}-{:02}-{:02}T{:02}:{:02}[{}]", y, m, d, h, mi, tz) };
+            if r.chance(1, 2) { json!({"op": "CZ.fromStr", "args": {"s": s}}) } else { json!({"op": "CRelTo.fromStr", "args": {"s": s}}) }
+        }
+        6 => json!({"op": "CZ.startOfDay", "args": {"ns": ns, "tz": tz}}),
+        7 => json!({"op": if r.chance(1, 2) { "CZ.toString" } else { "CZ.offset" }, "args": {"ns": ns, "tz": tz}}),
+        8 => {
+            let dur = if huge { json!({"y": 300000, "d": r.range(0, 40)}) } else { json!({"mo": r.range(-14, 14), "d": r.range(-40, 40), "h": r.range(-30, 30)}) };
+            let dur = fix_sign(dur);
+            json!({"op": if r.chance(1, 2) { "CZ.add" } else { "CZ.subtract" }, "args": {"ns": ns, "tz": tz, "dur": dur}})
+        }
+        9 => json!({"op": "CZ.until", "args": {"ns": ns, "tz": tz, "other": {"ns": instant(r), "tz": tz}, "st": {"largest": *r.pick(&["hour", "day", "month", "year"])}}}),
+        10 | 11 => {
+            let dur = if huge { json!({"y": 300000, "d": 3}) } else { json!({"mo": r.range(0, 14), "d": r.range(0, 50), "h": r.range(0, 40)}) };
+            let rel = json!({"ns": ns, "tz": tz});
+            match r.range(0, 2) {
+                0 => json!({"op": "CDur.round", "args": {"dur": dur, "st": {"largest": *r.pick(&["month", "year", "week", "day"]), "smallest": "day"}, "rel": rel}}),
+                1 => json!({"op": "CDur.total", "args": {"dur": dur, "unit": *r.pick(&["day", "hour", "month"]), "rel": rel}}),
+                _ => json!({"op": "CDur.compare", "args": {"dur": dur, "other": {"d": r.range(0, 60)}, "rel": rel}}),
+            }
+        }
+        12 => json!({"op": "CInstant.toString", "args": {"ns": ns, "tz": tz}}),
+        _ => {
+            let (y, m, d, h, mi) = if huge { (275760, 9, 13, 23, 59) } else { wall(r) };
+            json!({"op": "CPDT.toZoned", "args": {"dt": {"y": y, "m": m, "d": d, "h": h, "mi": mi, "s": 0, "ms": 0, "us": 0, "ns": 0}, "tz": tz}})
+        }
+    }
+}
+
+/// duration fields must share one sign
+fn fix_sign(mut d: Value) -> Value {
+    let m = d.as_object_mut().unwrap();
+    let neg = m.values().find(|v| v.as_i64().unwrap_or(0) != 0).map(|v| v.as_i64().unwrap() < 0).unwrap_or(false);
+    for v in m.values_mut() { let x = v.as_i64().unwrap().abs(); *v = json!(if neg { -x } else { x }); }
+    d
+}
+
+/// inputs that make the provider panic under the lock in the unchanged tree (found by probing; F comes from
+/// the reference run, so nothing here is assumed to panic)
+fn natural_panic(r: &mut Rng) -> Value {
+    match r.range(0, 4) {
+        // any wall-clock time between the two last transitions of a zone with a short table
+        4 => json!({"op": "CZ.fromStr", "args": {"s": "1973-01-03T04:49[Asia/Kathmandu]"}}),
+        // a wall-clock time near the start of the zone's transition table (v2_estimate_tz_pair: new_idx - 1)
+        3 => json!({"op": "CZ.fromStr", "args": {"s": "1902-12-23T23:27[Europe/London]"}}),
+        // the first transition second of the zone's 64-bit table (Tzif::get: Ok(idx) => idx - 1)
+        0 => json!({"op": "CZ.get", "args": {"ns": big(-2_717_650_800i128 * 1_000_000_000), "tz": "America/New_York", "f": "hour"}}),
+        // an instant after the last table transition of a zone with a DST footer (i32 overflow in the POSIX-TZ path)
+        1 => json!({"op": "CZ.get", "args": {"ns": big(2_208_988_800i128 * 1_000_000_000), "tz": "America/New_York", "f": "hour"}}),
+        _ => json!({"op": "CZ.toString", "args": {"ns": big(2_524_608_000i128 * 1_000_000_000), "tz": "Europe/Berlin"}}),
+    }
+}
+
+fn burst(r: &mut Rng, pool: &[&'static str], m: usize) -> Value {
+    Value::Array((0..m).map(|_| {
+        let fault = match r.range(0, 11) { 0 => "unknown", 1 => "range", _ => "" };
+        call(r, pool, fault)
+    }).collect())
+}
+
+/// session plan: {"n": N, "kind", "phases": [[[call..] per thread] per phase]}
+pub fn plan(r: &mut Rng, sid: usize) -> Value {
+    let n = [2usize, 3, 4, 6, 8, 12, 16][sid % 7].max(2);
+    // a small pool makes threads collide on the same cold zones; a large one mixes cold and warm
+    let k = if r.chance(1, 2) { r.range(1, 3) as usize } else { r.range(4, ZONES.len() as i64) as usize };
+    let mut pool: Vec<&'static str> = Vec::new();
+    while pool.len() < k { let z = *r.pick(&ZONES); if !pool.contains(&z) { pool.push(z); } }
+    let per = r.range(4, 10) as usize;
+    let fault_session = sid % 3 == 2;
+    let mut phases: Vec<Value> = Vec::new();
+    if !fault_session {
+        phases.push(Value::Array((0..n).map(|_| burst(r, &pool, per)).collect()));
+        if r.chance(1, 2) { phases.push(Value::Array((0..n).map(|_| burst(r, &pool, per / 2 + 1)).collect())); }
+        return json!({"n": n, "kind": "clean", "phases": phases});
+    }
+    // fault history: warm-up | one thread panics holding the lock (others idle or racing) | everybody calls again
+    phases.push(Value::Array((0..n).map(|_| burst(r, &pool, per / 2 + 1)).collect()));
+    let culprit = r.range(0, n as i64 - 1) as usize;
+    let natural = r.chance(1, 3);
+    let racing = r.chance(1, 3);
+    let fault_call = if natural { natural_panic(r) } else { json!({"op": "Lock.panic", "args": {}}) };
+    phases.push(Value::Array((0..n).map(|t| if t == culprit { json!([fault_call]) } else if racing { burst(r, &pool, 2) } else { json!([]) }).collect()));
+    phases.push(Value::Array((0..n).map(|_| burst(r, &pool, per / 2 + 1)).collect()));
+    json!({"n": n, "kind": if natural { "natural-panic" } else { "injected-panic" }, "phases": phases})
+}
 
 pub fn drive(t: &mut Tracer, r: &mut Rng, n: usize) {
-    let _ = (t, r, n);
+    // n = number of sessions; sessions are independent processes, run a few at a time
+    let plans: Vec<Value> = (0..n).map(|sid| plan(r, sid)).collect();
+    let next = std::sync::atomic::AtomicUsize::new(0);
+    let out = std::sync::Mutex::new(Vec::<(usize, Value)>::new());
+    std::thread::scope(|s| {
+        for _ in 0..3 {
+            s.spawn(|| loop {
+                let i = next.fetch_add(1, std::sync::atomic::Ordering::Relaxed);
+                if i >= n { break; }
+                let line = crate::sp_c20::run_session(i + 1, &plans[i]);
+                out.lock().unwrap().push((i, line));
+            });
+        }
+    });
+    let mut lines = out.into_inner().unwrap();
+    lines.sort_by_key(|x| x.0);
+    for (_, l) in lines { writeln!(t.f, "{}", l).unwrap(); t.n += 1; }
 }
